@@ -3,6 +3,7 @@ package rules
 import (
 	"fmt"
 	"go/types"
+	"strings"
 
 	"golang.org/x/tools/go/ssa"
 
@@ -90,6 +91,7 @@ func C06(c *Ctx) {
 	c.R.Rule("C06-R1", "E1", "no write through any argument of Step/Walk nor to a package-level variable", 10)
 	c.R.Rule("C06-R2", "E1", "returned states' bindings maps never alias the given state's bindings map", 3)
 	c.R.Rule("C06-R4", "E1", "the action wrapper (FuncAction.Exec) writes nothing it is given and no package-level state", 2)
+	c.R.Rule("C06-R5", "E1", "no script runtime outlives an execution (the engine keeps no state in one)", 3)
 	c.R.Rule("C06-R3", "E1", "ECMAScript actions and guards see copies: no caller data reachable from values given to the script runtime", 1)
 	a, step, walk := c.stepWalkAnalysis()
 	if a == nil {
@@ -128,6 +130,11 @@ func C06(c *Ctx) {
 		if c.scriptIsolation("C06-R3", ea, false) == 0 {
 			c.R.Break("C06-R3: no value handed to the script runtime found")
 		}
+	}
+	// R5: no script runtime survives an execution (a recycled runtime keeps what scripts left on its built-ins:
+	// state of the engine that is in no machine's node or bindings)
+	if ea, ex := c.ecmaAnalysis(); ea != nil {
+		c.runtimeFresh("C06-R5", ea, ex)
 	}
 	c.R.Extra["roots"] = []string{"spec", "state", "pending", "control", "props"}
 	c.R.Extra["write_sites_examined"] = countReachedWrites(a)
@@ -216,4 +223,17 @@ func C03(c *Ctx) {
 		c.R.Check(!bad, "C03-R2", fname(f)+":result[]", c.P.Pos(f.Pos()), "elements are only: "+locsString(locs), fmt.Sprintf("a returned binding set may be an input or shared object: %s", locsString(locs)))
 	}
 	c03Order(c)
+}
+
+// batchUntouched: E1 on Step/Walk, restricted to the messages: nothing writes memory reachable from the batch
+// (Walk's slice of pending messages, Step's pending message).
+func (c *Ctx) batchUntouched(rule string) {
+	a, _, walk := c.stepWalkAnalysis()
+	if a == nil {
+		return
+	}
+	n := c.reportEffects(rule, a, func(e pta.Effect) bool { return strings.HasPrefix(e.Target.Name, "root:pending") })
+	if n == 0 {
+		c.R.Discharge(rule, "Walk: the given batch is only read", c.P.Pos(walk.Pos()), fmt.Sprintf("%d write sites examined, none can reach the messages", countReachedWrites(a)))
+	}
 }
